@@ -1185,7 +1185,7 @@ class Pulse(Function):
         if self.interval.element == 0.0:
             return "(({}/{}) if {}=={} else 0.0)".format(self.volume.term(time), self.model.dt, time, self.first_pulse)
         else:
-            return "(({volume}/{dt}) if (({time}-{first_pulse}) >= 0 and (({time}-{first_pulse})%({interval}))==0) else 0.0)".format(volume=self.volume.term(time), dt=self.model.dt, time=time, first_pulse=self.first_pulse, interval=self.interval)
+            return "(({volume}/{dt}) if (({time}-{first_pulse}) >= 0 and round(({time}-{first_pulse})/({interval}),9)%1==0) else 0.0)".format(volume=self.volume.term(time), dt=self.model.dt, time=time, first_pulse=self.first_pulse, interval=self.interval)
 
 
 class Trend(Function):
